@@ -2,6 +2,7 @@
 # tools/run_all.sh [quick|thorough] : every registered check, one after the other; prints exit code and summary line
 TIER="${1:-quick}"
 cd "$(dirname "$0")/.." || exit 2
+mkdir -p /tmp/w
 for id in $(python3 -c "import json;print(' '.join(c['property_id'] for c in json.load(open('MANIFEST.json'))['checks']))"); do
   s=$(date +%s)
   ./vcheck "$id" --tier "$TIER" > "/tmp/w/all_$id.log" 2>&1
